@@ -44,7 +44,7 @@ Inductive sres :=
   | RPut (o : option N)
   | RPeers (l : option (list N))
   | RPolicy (p : policy)
-  | RHeads (l : list (N * N))   (* (author, timestamp) ascending by author *)
+  | RHeads (l : list (N * N * bytes))   (* (author, timestamp, key of the head entry) ascending by author *)
   | RNews (n : N)               (* 0 = None *)
   | RHashes (l : list N)
   | RNamespaces (l : list (N * bool))   (* (id, writable) *)
@@ -137,6 +137,10 @@ Section StoreOps.
   Definition heads_of (T : tables) (ns : N) : list (N * N) :=
     map (fun r => (snd (fst r), fst (snd r)))
         (tbl_range pair_cmp (Incl (ns, 0)) (Incl (ns, MAX256)) (t_latest T)).
+  (** [Store::get_latest_for_each_author]: author, timestamp and key of the head entry *)
+  Definition heads_full_of (T : tables) (ns : N) : list (N * N * bytes) :=
+    map (fun r => (snd (fst r), fst (snd r), snd (snd r)))
+        (tbl_range pair_cmp (Incl (ns, 0)) (Incl (ns, MAX256)) (t_latest T)).
   (** [AuthorHeads::has_news_for] *)
   Definition has_news (theirs ours : list (N * N)) : N :=
     N.of_nat (length (filter (fun h => match find (fun o => fst o =? fst h) ours with
@@ -212,7 +216,7 @@ Section StoreOps.
         | None => (s, RFail)
         end
     | SGetPolicy ns => (s, RPolicy (get_policy T ns))
-    | SHeads ns => (s, RHeads (heads_of T ns))
+    | SHeads ns => (s, RHeads (heads_full_of T ns))
     | SHasNews ns heads => (s, RNews (has_news heads (heads_of T ns)))
     | SContentHashes => (s, RHashes (map (fun r => snd (snd r)) (t_records T)))
     | SListNamespaces =>
